@@ -13,8 +13,10 @@ import (
 	"testing"
 	"time"
 
+	gerrors "github.com/tochemey/goakt/v4/errors"
 	"github.com/tochemey/goakt/v4/internal/verif/vsched"
 	"github.com/tochemey/goakt/v4/passivation"
+	"github.com/tochemey/goakt/v4/supervisor"
 )
 
 // ---------------------------------------------------------------------------------------------
@@ -29,6 +31,11 @@ import (
 //   parentstop P.Shutdown(ctx) (freeChildren)       stopchild P.Stop(ctx, A)
 //   passivate  time-based passivation, the event advances virtual time past the deadline
 //   sysstop    system.Stop(ctx)  (every watcher stops too: only "never two" is demanded)
+// plus suprestart-shutdown / suprestart-poison: A is a child of a recording
+// parent P and its supervisor's directive for a panic is Restart; the extra event a.fail (before term)
+// makes A fail, so A is restarted in place by its supervisor (PID.restartChild: UnWatch + Restart +
+// re-attachment) and only then terminates. P - the implicit parent watch, never unwatched - is judged
+// as a third watcher of class "watching".
 //
 // Events (each fired once unless stated, every order is enumerated): term (start the path),
 // w1.watch (x2 in thorough: Watch is called twice by the same watcher), w1.unwatch, w2.unwatch,
@@ -187,9 +194,10 @@ const (
 	c10EvRelPS
 	c10EvRelMB
 	c10EvW2Watch
+	c10EvAFail
 )
 
-var c10EvNames = [...]string{"term", "w1.watch", "w1.unwatch", "w2.unwatch", "w1.restart", "tick10ms", "rel.poststop", "rel.mbox", "w2.rewatch"}
+var c10EvNames = [...]string{"term", "w1.watch", "w1.unwatch", "w2.unwatch", "w1.restart", "tick10ms", "rel.poststop", "rel.mbox", "w2.rewatch", "a.fail"}
 
 type c10Cfg struct {
 	path      c10Path
@@ -197,10 +205,19 @@ type c10Cfg struct {
 	restart   bool // w1.restart in the alphabet
 	w2unwatch bool
 	w2rewatch bool // W2 may Watch again after its UnWatch was fired (thorough)
+	// supRestart: A is a child of the recording parent P and carries a supervisor whose directive
+	// for a panic is Restart; the event a.fail (only before term) makes A fail, so that A is
+	// restarted in place by its supervisor before it terminates. P (the implicit parent watch,
+	// never unwatched) is judged like any other watcher.
+	supRestart bool
 }
 
 func c10Run(t *testing.T, cfg c10Cfg, c *vsched.Chooser) vsched.Outcome {
 	var out vsched.Outcome
+	pname := c10PathNames[cfg.path]
+	if cfg.supRestart {
+		pname = "suprestart-" + pname
+	}
 	w := &c10World{got: map[string][]string{}}
 	var trace []string
 	p := vfBubble(t, func() {
@@ -229,7 +246,16 @@ func c10Run(t *testing.T, cfg c10Cfg, c *vsched.Chooser) vsched.Outcome {
 			aopts = []SpawnOption{WithPassivationStrategy(passivation.NewTimeBasedStrategy(time.Second))}
 		}
 		var a *PID
-		if cfg.path == c10PParentStop || cfg.path == c10PStopChild {
+		names := []string{"W1", "W2"}
+		if cfg.supRestart {
+			names = append(names, "P")
+			parent, err = sys.Spawn(ctx, "P", &c10Watcher{name: "P", w: w}, WithLongLived())
+			if err != nil {
+				panic(err)
+			}
+			sup := supervisor.NewSupervisor(supervisor.WithDirective(&gerrors.PanicError{}, supervisor.RestartDirective))
+			a, err = parent.SpawnChild(ctx, "A", &c10Target{w: w}, append(aopts, WithSupervisor(sup))...)
+		} else if cfg.path == c10PParentStop || cfg.path == c10PStopChild {
 			parent, err = sys.Spawn(ctx, "P", c10Plain{}, WithLongLived())
 			if err != nil {
 				panic(err)
@@ -246,6 +272,9 @@ func c10Run(t *testing.T, cfg c10Cfg, c *vsched.Chooser) vsched.Outcome {
 		vfSettle()
 
 		ws := map[string]*c10WState{"W1": {st: "never"}, "W2": {st: "watching"}}
+		if cfg.supRestart {
+			ws["P"] = &c10WState{st: "watching"} // a parent watches its children from the spawn on
+		}
 		termFired, termEnded := false, false
 		var termClient *c10Client
 		syncPath := false
@@ -259,6 +288,9 @@ func c10Run(t *testing.T, cfg c10Cfg, c *vsched.Chooser) vsched.Outcome {
 		}
 		if cfg.w2rewatch {
 			left[c10EvW2Watch] = 1
+		}
+		if cfg.supRestart {
+			left[c10EvAFail] = 1
 		}
 		inWindow := func() bool { return termFired && !termEnded }
 		restartPending := func() bool {
@@ -276,7 +308,7 @@ func c10Run(t *testing.T, cfg c10Cfg, c *vsched.Chooser) vsched.Outcome {
 		checkNeverTwo := func() {
 			w.mu.Lock()
 			defer w.mu.Unlock()
-			for _, n := range []string{"W1", "W2"} {
+			for _, n := range names {
 				cnt := 0
 				for _, pth := range w.got[n] {
 					if pth == aPath {
@@ -284,7 +316,7 @@ func c10Run(t *testing.T, cfg c10Cfg, c *vsched.Chooser) vsched.Outcome {
 					}
 				}
 				if cnt > 1 && len(viol) == 0 {
-					viol = append(viol, vsched.Fail("duplicate-terminated", "path=%s watcher %s (class %s) has received %d Terminated(A) after [%s]", c10PathNames[cfg.path], n, ws[n].st, cnt, strings.Join(trace, " ")))
+					viol = append(viol, vsched.Fail("duplicate-terminated", "path=%s watcher %s (class %s) has received %d Terminated(A) after [%s]", pname, n, ws[n].st, cnt, strings.Join(trace, " ")))
 				}
 			}
 		}
@@ -298,6 +330,9 @@ func c10Run(t *testing.T, cfg c10Cfg, c *vsched.Chooser) vsched.Outcome {
 			}
 			if cfg.w2rewatch && left[c10EvW2Watch] > 0 && left[c10EvW2UnWatch] == 0 {
 				en = append(en, c10EvW2Watch)
+			}
+			if left[c10EvAFail] > 0 && !termFired {
+				en = append(en, c10EvAFail)
 			}
 			if restartPending() {
 				en = append(en, c10EvTick)
@@ -414,6 +449,12 @@ func c10Run(t *testing.T, cfg c10Cfg, c *vsched.Chooser) vsched.Outcome {
 				}
 				s.restartC = c10Go(func() error { return w1.Restart(ctx) })
 				clients = append(clients, s.restartC)
+			case c10EvAFail:
+				// A panics; its supervisor's directive is Restart: A is suspended, the parent
+				// restarts it in place (no Shutdown, no Terminated). Nobody's watch is touched by
+				// the user, so the classes stay as they are.
+				left[ev]--
+				clients = append(clients, c10Go(func() error { return Tell(ctx, a, new(c10Fail)) }))
 			case c10EvTick:
 				time.Sleep(10 * time.Millisecond)
 			case c10EvRelPS:
@@ -424,6 +465,15 @@ func c10Run(t *testing.T, cfg c10Cfg, c *vsched.Chooser) vsched.Outcome {
 				close(w.mbGate)
 			}
 			vfSettle()
+			if ev == c10EvAFail {
+				for i := 0; i < 5 && !a.IsRunning(); i++ { // a restart of a running actor polls every 10ms
+					time.Sleep(10 * time.Millisecond)
+					vfSettle()
+				}
+				if (!a.IsRunning() || a.RestartCount() != 1) && out.Invalid == "" {
+					out.Invalid = "the supervised restart of A did not complete: " + strings.Join(trace, " ")
+				}
+			}
 			if termFired && !termEnded {
 				if restartPending() {
 					open("W1", "restart pending while the termination is in progress")
@@ -466,7 +516,7 @@ func c10Run(t *testing.T, cfg c10Cfg, c *vsched.Chooser) vsched.Outcome {
 		// final oracle
 		w.mu.Lock()
 		var obs []string
-		for _, n := range []string{"W1", "W2"} {
+		for _, n := range names {
 			cnt, wrong := 0, 0
 			for _, pth := range w.got[n] {
 				if pth == aPath {
@@ -477,16 +527,16 @@ func c10Run(t *testing.T, cfg c10Cfg, c *vsched.Chooser) vsched.Outcome {
 			}
 			s := ws[n]
 			if wrong > 0 {
-				viol = append(viol, vsched.Fail("terminated-wrong-actor", "path=%s watcher %s received Terminated naming %v, watched actor is %s", c10PathNames[cfg.path], n, w.got[n], aPath))
+				viol = append(viol, vsched.Fail("terminated-wrong-actor", "path=%s watcher %s received Terminated naming %v, watched actor is %s", pname, n, w.got[n], aPath))
 			}
 			switch s.st {
 			case "watching":
 				if cnt == 0 {
-					viol = append(viol, vsched.Fail("missing-terminated", "path=%s watcher %s watched A before the termination started, kept running and never unwatched, but received no Terminated(A); events [%s]", c10PathNames[cfg.path], n, strings.Join(trace, " ")))
+					viol = append(viol, vsched.Fail("missing-terminated", "path=%s watcher %s watched A before the termination started, kept running and never unwatched, but received no Terminated(A); events [%s]", pname, n, strings.Join(trace, " ")))
 				}
 			case "unwatched":
 				if cnt > 0 {
-					viol = append(viol, vsched.Fail("terminated-after-unwatch", "path=%s watcher %s completed UnWatch(A) before the termination started but received %d Terminated(A); events [%s]", c10PathNames[cfg.path], n, cnt, strings.Join(trace, " ")))
+					viol = append(viol, vsched.Fail("terminated-after-unwatch", "path=%s watcher %s completed UnWatch(A) before the termination started but received %d Terminated(A); events [%s]", pname, n, cnt, strings.Join(trace, " ")))
 				}
 			}
 			if cfg.path == c10PSysStop {
@@ -502,7 +552,7 @@ func c10Run(t *testing.T, cfg c10Cfg, c *vsched.Chooser) vsched.Outcome {
 		// observation = outcome per watcher + the phase of the termination in which every operation
 		// was fired (an abstraction of the schedule, not the schedule itself)
 		sort.Strings(phases)
-		out.Obs = c10PathNames[cfg.path] + " " + strings.Join(obs, " ") + " | " + strings.Join(phases, ",")
+		out.Obs = pname + " " + strings.Join(obs, " ") + " | " + strings.Join(phases, ",")
 		out.Violations = viol
 
 		if cfg.path == c10PSysStop {
@@ -534,6 +584,20 @@ func TestVerifC10(t *testing.T) {
 		scs = append(scs, vsched.Scenario{
 			Cfg: vsched.Config{Scenario: "c10-" + c10PathNames[pth], Bound: 0, SplitDepth: 3,
 				Params: map[string]any{"path": c10PathNames[pth], "w1.watch": cfg.watches, "w1.restart": cfg.restart, "w2.rewatch": cfg.w2rewatch}},
+			Run: func(c *vsched.Chooser) vsched.Outcome { return c10Run(t, cfg, c) },
+		})
+	}
+	// (no suprestart-passivate: on the unchanged tree a time-based actor that was restarted by its
+	// supervisor keeps passivationPausedState set - suspend() sets it, the in-place restart never clears
+	// it - while its manager entry is re-registered un-paused; when the idle deadline expires
+	// passivationManager.trigger retries tryPassivation forever without blocking. The bubble never
+	// settles: that is a liveness defect of goakt outside this property, reported to the lead.)
+	for _, pth := range []c10Path{c10PShutdown, c10PPoison} {
+		cfg := c10Cfg{path: pth, watches: 1, restart: r.Thorough(), w2unwatch: true, supRestart: true}
+		name := "c10-suprestart-" + c10PathNames[pth]
+		scs = append(scs, vsched.Scenario{
+			Cfg: vsched.Config{Scenario: name, Bound: 0, SplitDepth: 3,
+				Params: map[string]any{"path": c10PathNames[pth], "w1.watch": cfg.watches, "w1.restart": cfg.restart, "a.fail": "supervised restart (Restart directive) of A before term"}},
 			Run: func(c *vsched.Chooser) vsched.Outcome { return c10Run(t, cfg, c) },
 		})
 	}
